@@ -271,8 +271,8 @@ def oracle_decisions(casbin, mname, store):
         try:
             e.build_role_links()
             _ORACLE[key] = decisions(e)
-        except Exception as ex:  # noqa
-            _ORACLE[key] = "!" + type(ex).__name__
+        except Exception:  # noqa: a subset whose links cannot be built has no reference decisions
+            _ORACLE[key] = None
     return _ORACLE[key]
 
 
@@ -322,108 +322,152 @@ def parse_obs(a):
     return parts
 
 
+def eval_history(casbin, part, mode, mname, text, ops, ans, tmp):
+    """run one history on the real code and judge it against the driver's answers `ans` (the lines of hist_lines for
+    this history). Records into `part`; returns the violations found (dicts)."""
+    found = []
+    try:
+        obs = impl_history(casbin, mname, text, ops, tmp)
+    except Exception as ex:  # noqa
+        part.disagree({"what": "harness could not run the history on the real code", "error": repr(ex), "model_name": mname, "file": text, "ops": ops})
+        return found
+    case0 = {"kind_of_case": "history", "model_name": mname, "model_text": MODELS[mname], "file": text}
+    part.count(f"hist:{mode}:len{len(ops)}")
+    pos = 2
+    for i, op in enumerate(ops):
+        a_op, a_obs = ans[pos], ans[pos + 1]
+        pos += 2
+        case = dict(case0, ops=ops[: i + 1])  # the history up to the judged step
+        model, spec, dom = pc.parse_msd(a_op)
+        mo = parse_obs(a_obs)
+        res, store, filtered, ftext, edges, decs = obs[i]
+        part.evaluations += 1
+        part.count(f"op:{op[0]}:{res if not res.startswith('!other') else '!other'}" + ("" if dom else ":outside"))
+        stop = False
+        # ---- the tie: result, memory, flag, file, links
+        impl_state = (res, enc_store(store), common.enc_bool(filtered), enc_str(ftext))
+        model_state = (model.split(",")[0], mo["mem"], mo["filtered"], mo["file"])
+        medges = restrict_edges(sorted({tuple(dec_str(x) for x in r.split("|")) for r in ([] if mo["links"] == "~" else mo["links"].split(";"))}))
+        if impl_state != model_state or [tuple(x) for x in edges] != medges:
+            part.disagree(dict(case, what=f"step {i} ({op[0]}): Enforcer+FilteredFileAdapter vs Model.step", step=i, impl=impl_state + (edges,), model=model_state + (medges,)))
+            # the states before this step agreed, so the specification of this step still applies to the
+            # implementation: judge it, then stop following this history
+            stop = True
+        # ---- the property
+        if spec != "?":
+            if op[0] in ("loadf", "loadinc", "load"):
+                sstore, sflag = spec.split(",")
+                if res == "ok" and any(r for _, _, r in store):
+                    part.nontrivial.add(hash((mname, text, repr(ops[: i + 1]))))
+                sedges = restrict_edges(edges_of_store(dec_store(sstore)))
+                exp = ("ok", sstore, sflag, sedges)
+                got = (res, enc_store(store), common.enc_bool(filtered), [tuple(x) for x in edges])
+                mgot = (model.split(",")[0], mo["mem"], mo["filtered"], medges)
+                if dom and mgot != exp and mgot[0] == "ok":
+                    part.mvs(dict(case, step=i, model=mgot, spec=exp))
+                # the loaded subset decides like a fresh enforcer holding exactly the specified subset
+                if got == exp and decs is not None:
+                    odec = oracle_decisions(casbin, mname, dec_store(sstore))
+                    part.count("oracle:enforce-requests", len(REQS))
+                    if odec is not None and odec != decs:
+                        got = got + (decs,)
+                        exp = exp + (odec,)
+                if got != exp and not (res == "!roleDefinition"):
+                    which = "subset" if got[1] != exp[1] else "flag" if got[2] != exp[2] else "links" if got[3] != exp[3] else "enforce" if len(got) > 4 else "result"
+                    found.append(
+                        dict(
+                            case,
+                            signature=f"{op[0]}:{which}" if dom else "F20:filter-split",
+                            what=f"step {i}: {op[0]}({op[1] if len(op) > 1 else ''}) on file {text!r}: loaded {show(got)}; the filtered subset is {show(exp)}",
+                            step=i,
+                            expected=list(exp),
+                            observed=list(got),
+                        )
+                    )
+                    stop = True
+            else:
+                sres, sfile = spec.split(",")
+                got = (res, enc_str(ftext))
+                mgot = (model.split(",")[0], mo["file"])
+                if mgot != (sres, sfile):
+                    part.mvs(dict(case, step=i, model=mgot, spec=(sres, sfile)))
+                if res == "!cannotSaveFiltered":
+                    part.nontrivial.add(hash((mname, text, repr(ops[: i + 1]), "refused")))
+                if got != (sres, sfile):
+                    found.append(
+                        dict(
+                            case,
+                            signature=f"{op[0]}:" + ("not-refused" if sres.startswith("!") and res == "ok" else "refused" if res.startswith("!") else "file"),
+                            what=f"step {i}: {op[0]} gave {res} and left the file as {ftext!r}; expected {sres} and {dec_str(sfile)!r}",
+                            step=i,
+                            expected=[sres, sfile],
+                            observed=list(got),
+                        )
+                    )
+                    stop = True
+        if stop:
+            break
+    return found
+
+
+def shrink_history(casbin, store0, v, tmp, budget=60):
+    """delta-debugging on the earlier operations and on the file's lines: keeps a candidate when the same signature is
+    still violated (judged again by driver + real code)"""
+    sig, mname = v["signature"], v["model_name"]
+    best = v
+    changed = True
+    while changed and budget > 0:
+        changed = False
+        text, ops = best["file"], best["ops"]
+        cands = [(text, ops[:j] + ops[j + 1 :]) for j in range(len(ops) - 1)]
+        ls = text.split("\n")
+        cands += [("\n".join(ls[:j] + ls[j + 1 :]), ops) for j in range(len(ls))] if len(ls) > 1 else []
+        for t2, o2 in cands:
+            budget -= 1
+            if budget <= 0:
+                break
+            ans = run_driver("persist", hist_lines(enc_store(store0[mname]), t2, o2))
+            vs = eval_history(casbin, Part(), "shrink", mname, t2, o2, ans, tmp)
+            hit = [x for x in vs if x["signature"] == sig]
+            if hit:
+                best = dict(hit[0], shrunk_from={"file": v["file"], "ops": v["ops"]})
+                changed = True
+                break
+    return best
+
+
 def hist_job(job):
     seed, n, mode = job
     import random
 
-    rng = random.Random(seed)
     casbin = common.use_repo()
     part = Part()
-    cases = []
-    for _ in range(n):
-        mname = rng.choice(["rbac2", "rbac2", "dom", "nog"])
-        cases.append((mname, gen_file(rng, mname, mode), gen_ops(rng, mname, mode)))
     store0 = {mn: [(k, a, []) for k, a, _ in pc.dump_model(casbin.Enforcer.new_model(text=MODELS[mn]))] for mn in MODELS}
+    if mode == "corpus":
+        cases = [(c["model_name"], c["file"], [[o[0]] + ([tuple(o[1]) if o[1] is not None else None] if len(o) > 1 else []) for o in c["ops"]]) for c in seed]
+    else:
+        rng = random.Random(seed)
+        cases = []
+        for _ in range(n):
+            mname = rng.choice(["rbac2", "rbac2", "dom", "nog"])
+            cases.append((mname, gen_file(rng, mname, mode), gen_ops(rng, mname, mode)))
     dl = []
     for mname, text, ops in cases:
         dl += hist_lines(enc_store(store0[mname]), text, ops)
-    ans = run_driver("persist", dl)
+    ans = run_driver("persist", dl) if dl else []
     pos = 0
+    known = {k["signature"] for k in common.load_known() if k["property"] == "C12" and k.get("status") == "open"}
+    shrunk = set()
     with pc.TmpDir() as tmp:
         for mname, text, ops in cases:
-            pos += 2
-            try:
-                obs = impl_history(casbin, mname, text, ops, tmp)
-            except Exception as ex:  # noqa
-                part.disagree({"what": "harness could not run the history on the real code", "error": repr(ex), "model_name": mname, "file": text, "ops": ops})
-                pos += 2 * len(ops)
-                continue
-            case0 = {"kind_of_case": "history", "model_name": mname, "model_text": MODELS[mname], "file": text}
-            part.count(f"hist:{mode}:len{len(ops)}")
-            bad = False
-            for i, op in enumerate(ops):
-                a_op, a_obs = ans[pos], ans[pos + 1]
-                pos += 2
-                if bad:
-                    continue
-                case = dict(case0, ops=ops[: i + 1])  # the history up to the judged step
-                model, spec, dom = pc.parse_msd(a_op)
-                mo = parse_obs(a_obs)
-                res, store, filtered, ftext, edges, decs = obs[i]
-                part.evaluations += 1
-                part.count(f"op:{op[0]}:{res if not res.startswith('!other') else '!other'}" + ("" if dom else ":outside"))
-                # ---- the tie: result, memory, flag, file, links
-                impl_state = (res, enc_store(store), common.enc_bool(filtered), enc_str(ftext))
-                model_state = (model.split(",")[0], mo["mem"], mo["filtered"], mo["file"])
-                medges = restrict_edges(sorted({tuple(dec_str(x) for x in r.split("|")) for r in ([] if mo["links"] == "~" else mo["links"].split(";"))}))
-                if impl_state != model_state or [tuple(x) for x in edges] != medges:
-                    part.disagree(dict(case, what=f"step {i} ({op[0]}): Enforcer+FilteredFileAdapter vs Model.step", step=i, impl=impl_state + (edges,), model=model_state + (medges,)))
-                    # the states before this step agreed, so the specification of this step still applies to the
-                    # implementation: judge it, then stop following this history
-                    bad = True
-                # ---- the property
-                if spec == "?":
-                    continue
-                if op[0] in ("loadf", "loadinc", "load"):
-                    sstore, sflag = spec.split(",")
-                    if res == "ok" and any(r for _, _, r in store):
-                        part.nontrivial.add(hash((mname, text, repr(ops[: i + 1]))))
-                    sedges = restrict_edges(edges_of_store(dec_store(sstore)))
-                    exp = ("ok", sstore, sflag, sedges)
-                    got = (res, enc_store(store), common.enc_bool(filtered), [tuple(x) for x in edges])
-                    mgot = (model.split(",")[0], mo["mem"], mo["filtered"], medges)
-                    if dom and mgot != exp and mgot[0] == "ok":
-                        part.mvs(dict(case, step=i, model=mgot, spec=exp))
-                    # the loaded subset decides like a fresh enforcer holding exactly the specified subset
-                    if got == exp and decs is not None:
-                        odec = oracle_decisions(casbin, mname, dec_store(sstore))
-                        part.count("oracle:enforce-requests", len(REQS))
-                        if odec != decs:
-                            got = got + (decs,)
-                            exp = exp + (odec,)
-                    if got != exp and not (res == "!roleDefinition"):
-                        which = "subset" if got[1] != exp[1] else "flag" if got[2] != exp[2] else "links" if got[3] != exp[3] else "enforce" if len(got) > 4 else "result"
-                        part.violation(
-                            dict(
-                                case,
-                                signature=f"{op[0]}:{which}" if dom else "F20:filter-split",
-                                what=f"step {i}: {op[0]}({op[1] if len(op) > 1 else ''}) on file {text!r}: loaded {show(got)}; the filtered subset is {show(exp)}",
-                                step=i,
-                                expected=list(exp),
-                                observed=list(got),
-                            )
-                        )
-                        bad = True
-                else:
-                    sres, sfile = spec.split(",")
-                    got = (res, enc_str(ftext))
-                    mgot = (model.split(",")[0], mo["file"])
-                    if mgot != (sres, sfile):
-                        part.mvs(dict(case, step=i, model=mgot, spec=(sres, sfile)))
-                    if res == "!cannotSaveFiltered":
-                        part.nontrivial.add(hash((mname, text, repr(ops[: i + 1]), "refused")))
-                    if got != (sres, sfile):
-                        part.violation(
-                            dict(
-                                case,
-                                signature=f"{op[0]}:" + ("not-refused" if sres.startswith("!") and res == "ok" else "refused" if res.startswith("!") else "file"),
-                                what=f"step {i}: {op[0]} gave {res} and left the file as {ftext!r}; expected {sres} and {dec_str(sfile)!r}",
-                                step=i,
-                                expected=[sres, sfile],
-                                observed=list(got),
-                            )
-                        )
-                        bad = True
+            n_lines = 2 + 2 * len(ops)
+            vs = eval_history(casbin, part, mode, mname, text, ops, ans[pos : pos + n_lines], tmp)
+            pos += n_lines
+            for v in vs:
+                if v["signature"] not in known and v["signature"] not in shrunk and len(shrunk) < 3:
+                    shrunk.add(v["signature"])
+                    v = shrink_history(casbin, store0, v, tmp)
+                part.violation(v)
         if cases:
             part.sample({"model": cases[0][0], "file": cases[0][1], "ops": cases[0][2]})
     return part
@@ -461,6 +505,22 @@ def fl_job(_):
     return part
 
 
+def load_corpus():
+    """corpus/C12/*.json: minimised past witnesses (replay format: model_name, file, ops); always run first"""
+    import glob
+    import json
+
+    out = []
+    for f in sorted(glob.glob(os.path.join(common.VERIF, "corpus", "C12", "*.json"))):
+        try:
+            c = json.load(open(f))
+            if c.get("kind_of_case") == "history" and c.get("model_name") in MODELS:
+                out.append(c)
+        except Exception:  # noqa
+            pass
+    return out
+
+
 def run(ctx):
     res = common.Result()
     stages = [(2400, 900, 500)] if not ctx["deep"] else ([(60000, 20000, 8000)] if ctx["proof_ok"] else [(2400, 900, 500), (60000, 20000, 8000)])
@@ -475,7 +535,9 @@ def _stage(ctx, res, nin, nout, nraise):
     rng = ctx["rng"]
     pc.merge(res, [fl_job(None)])
     nw = pc.NPROC
-    jobs = []
+    corpus = load_corpus()
+    jobs = [(corpus, len(corpus), "corpus")] if corpus else []
+    res.extra["corpus_cases"] = len(corpus)
     for mode, n in (("in", nin), ("out", nout), ("raise", nraise)):
         per = n // nw + 1
         jobs += [(rng.getrandbits(48), per, mode) for _ in range(nw)]
